@@ -7,7 +7,7 @@ from ..algebra import Poly, Rat, mobius_of
 from ..cfg import CFG
 from ..convmodel import X, ConvModel
 from ..report import AnalysisError, norm
-from ..terms import Resolver, alternatives, show
+from ..terms import walk, Resolver, alternatives, show
 
 PROP = "C01"
 EXHAUSTIVE = True
@@ -240,7 +240,7 @@ def r4_routes(rep, ctx):
     for n in ast.walk(conv.node):
         if isinstance(n, ast.Return) and isinstance(n.value, ast.Call):
             t = res.term(n.value)
-            if t[0] == "call" and any(a[0] == "elem" or (a[0] == "sub" and a[1][0] == "elem") for a in alternatives(t[1])):
+            if t[0] == "call" and any(_is_computed_callable(a) for a in alternatives(t[1])):
                 handoffs += 1
                 args = t[2]
                 ok = len(args) == 5 and routes.role_matches(args[2], spec.source) and routes.role_matches(args[3], spec.target) and routes.role_matches(args[4], spec.value)
@@ -248,6 +248,18 @@ def r4_routes(rep, ctx):
                           "registered conversion function is called with arguments out of protocol order: %s" % show(t, 300), node=n, fn=conv)
                 _shortcut(rep, m, conv, cfg, res, spec, n, tag="handoff")
     rep.floor("C01.R4", "hand-off to registered conversion types", handoffs, 1)
+
+
+def _is_computed_callable(x):
+    """The conversion function registered for the value's type: an element of the registry of additional
+    conversions, however it is fetched (loop variable, subscript, or the result of a lookup helper)."""
+    if x[0] == "elem" or (x[0] == "sub" and x[1][0] == "elem"):
+        return True
+    if x[0] == "sub" and any(s == ("field", "_additional_conversions") for s in walk(x)):
+        return True
+    if x[0] == "call" and x[1][0] == "field" and "Conversion" in x[1][1]:
+        return True
+    return False
 
 
 def _same_as_stored_field(m, fn, t, role):
@@ -340,7 +352,7 @@ def _classify_returns(rep, m, spec):
                     problems.append("the element-wise branch yields unconverted elements")
             elif a[0] == "call" and (a[1][0] == "field" or (a[1][0] == "attr" and a[1][1] == ("self",))):
                 kinds.add("delegation to %s" % (a[1][1] if a[1][0] == "field" else a[1][2]))
-            elif a[0] == "call" and any(x[0] == "elem" or (x[0] == "sub" and x[1][0] == "elem") for x in alternatives(a[1])):
+            elif a[0] == "call" and any(_is_computed_callable(x) for x in alternatives(a[1])):
                 kinds.add("hand-off to a registered conversion function")
             else:
                 problems.append("can return %s, which is neither a conversion of the value nor the value itself under equal units" % show(a, 80))
